@@ -364,6 +364,17 @@ func c19Derived(c *Ctx, r *Report) {
 				}
 			}
 		})
+		// ... and nothing else decides: every return hands out that comparison
+		allInstrs(fn, func(in ssa.Instruction) {
+			ret, ok := in.(*ssa.Return)
+			if !ok || len(ret.Results) != 1 {
+				return
+			}
+			bin, isB := ret.Results[0].(*ssa.BinOp)
+			if !isB || bin.Op != token.EQL {
+				okShape = false
+			}
+		})
 		r.check(okShape, "C19.R2.compare", "IsSubDomain", c.pos(fn.Pos()), "common labels == labels of the parent", "IsSubDomain is not `CompareDomainName(parent, child) == CountLabel(parent)`: the sub-domain test no longer says that every label of the parent is a trailing label of the child")
 	} else {
 		r.cerr("C19.R2.compare", "IsSubDomain", "function not found")
